@@ -179,8 +179,7 @@ REG = {
          "is carried across calls (the pinned code, repaired in /repo) and proves it with a per-call reset. Constants are accepted against c*V within the rounding of the "
          "sum, smooth integrands (exponential, off-centre Gaussian, polynomial; 1..6 dimensions, offset anisotropic regions of widths 1e-3..1e3) within six standard errors "
          "of the mean of 32 seeded repetitions, and the 2D/3D front ends on boxes with disjoint limit ranges per axis (every argument inside its own pair of limits).",
-    note="Statistical clauses use fixed seeds. Budgets 1e3..6e4 (quick) rather than up to 1e6. A known finding is listed for Vegas on constants of small absolute size "
-         "(relative error ~1e-10, not rounding). Vegas called directly with init>0 (restart) is outside the statement. The vector handed to the integrand by Vegas has 10 "
+    note="Statistical clauses use fixed seeds. Budgets 1e3..6e4 (quick) rather than up to 1e6. Vegas called directly with init>0 (restart) is outside the statement. The vector handed to the integrand by Vegas has 10 "
          "entries; only the first `dimension` are checked for containment.",
     technique="TLA+ memo specification without history variable + model of Miser's generator state (TLC: refuted without reset, proved with) + trace validation of calls recorded in fresh processes and after random histories (seed hook)"),
  "C13": dict(
